@@ -235,6 +235,13 @@ package vm
 // running inside eval, i.e. under one of these guards, and from Call).
 //@ scan[C03.vm.recover] C03 recoverguard vm: (*VirtualMachine).runCodeInternal (*VirtualMachine).Call
 
+// C10: `for x := range ch` iterates over a private iterator of the channel (Chan.Iter, contract C10.iter.private in
+// package object), not over the shared channel object itself: *Chan is both Iterable and Iterator, and the GetIter
+// arm of eval must test Iterable first. The arms of eval are not units of their own, so this is a structural
+// obligation over the SSA of eval: every comma-ok test against object.Iterator is reached only through the failed
+// branch of a test of the same value against object.Iterable (seed C10c swapped the two cases).
+//@ scan[C10.getiter.order] C10 assertorder (*VirtualMachine).eval: object.Iterable object.Iterator
+
 // C08 / C03: vm.Run (the path of risor.Eval and risor.EvalCode) rejects globals that cannot be converted with an
 // error: no explicit panic is reachable in it or in the constructors it inlines (KF-43 fixed: it went through vm.New,
 // which panics on purpose for compatibility).
